@@ -192,6 +192,20 @@ def cases(tier, seed):
         for extra in ([], G.transform_args("keep", "pipe") + ["--rf-over", "1"]):
             c = mk(tree_two(L, o), "cacherace", L, o, "metro", "ssd", ["--cache", "-t", "1"] + extra, tr=["keep", "pipe"] if extra else None)
             out.append(c)
+    # files of DIFFERENT length whose shorter members are exactly a prefix of the longer ones (4096 / 16384 bytes: the
+    # lengths of the partial prefix hashes): a group never mixes lengths, whatever arrives first
+    for short, long_ in ((4096, 20000), (4096, 70000), (16384, 70000), (1, 4097)):
+        # (the verification build hands hashing results to the collectors in path order: both name orders are used)
+        tree = [{"p": "r/d1/a_short", "k": "file", "c": ["base", short, 5]}, {"p": "r/d1/b_short", "k": "file", "c": ["base", short, 5]},
+                {"p": "r/d1/c_long", "k": "file", "c": ["base", long_, 5]}, {"p": "r/d1/d_long", "k": "file", "c": ["base", long_, 5]}]
+        tree2 = [{"p": "r/d1/c_short", "k": "file", "c": ["base", short, 5]}, {"p": "r/d1/d_short", "k": "file", "c": ["base", short, 5]},
+                 {"p": "r/d1/a_long", "k": "file", "c": ["base", long_, 5]}, {"p": "r/d1/b_long", "k": "file", "c": ["base", long_, 5]}]
+        for order in (tree, list(reversed(tree)), tree2):
+            for h, d, extra in (("metro", "unknown", ["-t", "1"]), ("metro", "hdd", []), ("metro", "ssd", ["--max-prefix-size", "16384", "-t", "1"]),
+                                ("blake3", "ssd", ["--max-prefix-size", "65536"]), ("metro", "ssd", [])):
+                c = mk(order, "two", long_, 0, h, d, extra)
+                c["meta"]["mixed_lengths"] = [short, long_]
+                out.append(c)
     # sparse files: data, a hole, data again (and a trailing hole): two classes that differ only BEHIND the first hole
     MiB = 1 << 20
     for layout, segsA, segsB, L in (
